@@ -98,7 +98,7 @@ Section Pair.
 
   (* ---- nested-loop path: the whole condition is a typed predicate without subqueries *)
   Lemma nl_pair : forall c b,
-    pform c = true -> has_sub c = false -> bare_ok [rw; lw] c = true -> equi_keys c = [] ->
+    pform c = true -> has_sub c = false -> bare_ok [rw; lw] c = true -> hash_path c = false ->
     pass_res (rtv (xeval db [r; l] c)) = ROk b ->
     join_match lw rw (Some c) l r = Some b.
   Proof.
@@ -162,7 +162,7 @@ Section Pair.
     end ->
     let c1 := XCmp CEq (lift1 a) (XCol 0 j true) in
     let c := match w2 with Some p2 => XAnd c1 p2 | None => c1 end in
-    equi_keys c = [] ->
+    hash_path c = false ->
     exists y e, nth_error r j = Some y /\
       join_match lw rw (Some c) l r = Some (b && e) /\
       (forall t, cmp3 CEq x y = Some t -> e = tv_is_true t).
@@ -304,13 +304,74 @@ Section Pair.
         rewrite (Hb2 (tv_is_true tb)) by (unfold pass_res; rewrite Htb; reflexivity). reflexivity.
   Qed.
 
+  (* a usable key pairs the two inputs: it is not a same-side key, and its qualified sides name
+     one table of each input *)
+  Lemma one_key_shape : forall l1 i1 q1 l2 i2 q2,
+    (match key_pair lw rw ((l1, i1, q1), (l2, i2, q2)) with Some _ => true | None => false end
+     && key_side_ok lw rw (l1, i1, q1) && key_side_ok lw rw (l2, i2, q2)) = true ->
+    key_same lw rw ((l1, i1, q1), (l2, i2, q2)) = None /\ key_tables_ok ((l1, i1, q1), (l2, i2, q2)) = true.
+  Proof.
+    intros l1 i1 q1 l2 i2 q2 H. apply andb_true_iff in H. destruct H as [H H2]. apply andb_true_iff in H. destruct H as [Hp H1].
+    destruct (key_side_val l1 i1 q1 H1) as [v1 [_ [_ [Hk1 Hs1]]]].
+    destruct (key_side_val l2 i2 q2 H2) as [v2 [_ [_ [Hk2 Hs2]]]].
+    unfold key_pair, key_same in *. cbn [fst snd] in *. rewrite Hk1, Hk2 in *.
+    destruct l1 as [|l1]; destruct l2 as [|l2].
+    - exfalso.
+      assert (E1 : (lw + i1 <? lw)%nat = false) by (apply Nat.ltb_ge; lia).
+      assert (E2 : (lw + i2 <? lw)%nat = false) by (apply Nat.ltb_ge; lia).
+      rewrite E1, E2 in Hp. cbn in Hp. discriminate.
+    - destruct Hs2 as [Hi2 El2]. inversion El2; subst l2.
+      assert (E1 : (lw + i1 <? lw)%nat = false) by (apply Nat.ltb_ge; lia).
+      assert (E2 : (i2 <? lw)%nat = true) by (apply Nat.ltb_lt; lia).
+      rewrite E1, E2. cbn [Bool.eqb]. split; [reflexivity|]. unfold key_tables_ok. destruct (q1 && q2); reflexivity.
+    - destruct Hs1 as [Hi1 El1]. inversion El1; subst l1.
+      assert (E1 : (i1 <? lw)%nat = true) by (apply Nat.ltb_lt; lia).
+      assert (E2 : (lw + i2 <? lw)%nat = false) by (apply Nat.ltb_ge; lia).
+      rewrite E1, E2. cbn [Bool.eqb]. split; [reflexivity|]. unfold key_tables_ok. destruct (q1 && q2); reflexivity.
+    - exfalso. destruct Hs1 as [Hi1 _]. destruct Hs2 as [Hi2 _].
+      assert (E1 : (i1 <? lw)%nat = true) by (apply Nat.ltb_lt; lia).
+      assert (E2 : (i2 <? lw)%nat = true) by (apply Nat.ltb_lt; lia).
+      rewrite E1, E2 in Hp. cbn in Hp. discriminate.
+  Qed.
+
+  Lemma same_keys_app : forall ks1 ks2, same_keys lw rw (ks1 ++ ks2) = same_keys lw rw ks1 ++ same_keys lw rw ks2.
+  Proof.
+    induction ks1 as [|k ks1 IH]; intro ks2; cbn [app same_keys]; [reflexivity|].
+    destruct (key_same lw rw k); rewrite IH; reflexivity.
+  Qed.
+
+  Lemma pure_keys_shape : forall c, pure_keys lw rw c = true ->
+    all_equi c = true /\ forallb key_tables_ok (equi_keys c) = true /\ same_keys lw rw (equi_keys c) = [].
+  Proof.
+    induction c; cbn [pure_keys]; intro H; try discriminate.
+    - destruct op; try discriminate. destruct c1; try discriminate. destruct c2; try discriminate.
+      destruct (one_key_shape _ _ _ _ _ _ H) as [Hs Ht]. cbn [all_equi equi_keys forallb same_keys].
+      rewrite Hs, Ht. repeat split; reflexivity.
+    - apply andb_true_iff in H. destruct H as [H1 H2].
+      destruct (IHc1 H1) as [A1 [T1 S1]]. destruct (IHc2 H2) as [A2 [T2 S2]].
+      cbn [all_equi equi_keys]. rewrite A1, A2, forallb_app, T1, T2, same_keys_app, S1, S2. repeat split; reflexivity.
+  Qed.
+
+  Lemma pure_keys_hash_path : forall c, pure_keys lw rw c = true -> hash_path c = true.
+  Proof.
+    intros c H. destruct (pure_keys_shape c H) as [A [T _]]. destruct (pure_keys_decided c H) as [m [_ [Hne _]]].
+    unfold hash_path. rewrite A, T. destruct (equi_keys c); [cbn in Hne; congruence|reflexivity].
+  Qed.
+
+  Lemma pure_keys_join_match : forall c, pure_keys lw rw c = true ->
+    join_match lw rw (Some c) l r = hash_match (key_pairs lw rw (equi_keys c)) l r.
+  Proof.
+    intros c H. destruct (pure_keys_shape c H) as [_ [_ S]]. destruct (pure_keys_decided c H) as [m [Hh [Hne _]]].
+    unfold join_match. rewrite (pure_keys_hash_path c H), S. cbn [same_match].
+    destruct (key_pairs lw rw (equi_keys c)) as [|pp ps] eqn:E; [congruence|].
+    rewrite Hh. reflexivity.
+  Qed.
+
   Lemma hash_pair : forall c b, pure_keys lw rw c = true ->
     pass_res (rtv (xeval db [r; l] c)) = ROk b -> join_match lw rw (Some c) l r = Some b.
   Proof.
     intros c b Hp Hb. destruct (pure_keys_decided c Hp) as [m [Hh [Hne Hm]]].
-    unfold join_match. destruct (equi_keys c) as [|k ks] eqn:Ek; [cbn in Hne; congruence|].
-    destruct (key_pairs lw rw (k :: ks)) as [|pp ps] eqn:Ekp; [congruence|].
-    rewrite Hh. rewrite (Hm b Hb). reflexivity.
+    rewrite (pure_keys_join_match c Hp), Hh, (Hm b Hb). reflexivity.
   Qed.
 
   (* x IN on the hash path: the outer expression is a column *)
@@ -342,19 +403,13 @@ Section Pair.
     assert (Ev2 : nth_error r j = Some v2).
     { rewrite xeval_col in Hx2. cbn [nth_error] in Hx2. destruct (nth_error r j); cbn in Hx2; [congruence|discriminate]. }
     exists v2, m. split; [exact Ev2|]. split.
-    - unfold join_match. subst c. destruct w2 as [p2|].
+    - rewrite (pure_keys_join_match c Hp). subst c. destruct w2 as [p2|].
       + cbn [pure_keys] in Hp. apply andb_true_iff in Hp. destruct Hp as [_ Hp2].
         destruct (pure_keys_decided p2 Hp2) as [m2 [Hh2 [Hn2 Hm2]]]. rewrite (Hm2 b Hw).
-        cbn [equi_keys]. fold c1.
+        cbn [equi_keys]. rewrite key_pairs_app.
         change (equi_keys c1) with [((S la, ia, qa), (0%nat, j, true))].
-        destruct ([((S la, ia, qa), (0%nat, j, true))] ++ equi_keys p2) as [|k0 ks0] eqn:Eapp; [discriminate|].
-        rewrite <- Eapp. rewrite key_pairs_app.
-        destruct (key_pairs lw rw [((S la, ia, qa), (0%nat, j, true))] ++ key_pairs lw rw (equi_keys p2)) as [|pp ps] eqn:Ekp.
-        * apply app_eq_nil in Ekp. destruct Ekp. congruence.
-        * rewrite <- Ekp, (hash_match_app _ _ m m2 Hh Hh2). rewrite andb_comm. reflexivity.
-      + subst b. change (equi_keys c1) with [((S la, ia, qa), (0%nat, j, true))].
-        destruct (key_pairs lw rw [((S la, ia, qa), (0%nat, j, true))]) as [|pp ps] eqn:Ekp; [congruence|].
-        cbn [equi_keys]. rewrite Ekp, Hh. reflexivity.
+        rewrite (hash_match_app _ _ m m2 Hh Hh2). rewrite andb_comm. reflexivity.
+      + subst b. change (equi_keys c1) with [((S la, ia, qa), (0%nat, j, true))]. rewrite Hh. reflexivity.
     - intros t Ht. eapply key_eq_cmp3; eauto.
   Qed.
 End Pair.
